@@ -21,6 +21,34 @@ def fuel : Nat := 400
 
 def bstr (b : Bool) : Str := if b then s%"true" else s%"false"
 
+/-- Code tokens of a Go text: comments and white space dropped, identifier/number runs kept
+    whole, every other character its own token (string literals are tokenised too, but never
+    scanned for comments).  The structured model `genFile` stands for the *code* of the output;
+    comments and layout of the template are not its business. -/
+def codeTokens (s : Str) : List Str :=
+  let isW (c : Char) : Bool := c.isAlphanum || c = '_' || c.toNat ≥ 128
+  let flush (cur : Str) (acc : List Str) : List Str := if cur.isEmpty then acc else cur.reverse :: acc
+  -- st: 0 code, 1 code after one '/', 2 comment, 3 string, 4 string after a backslash
+  let rec go : Str → Nat → Str → List Str → List Str
+    | [], st, cur, acc => ((if st = 1 then [['/']] else []) ++ flush cur acc).reverse
+    | c :: cs, st, cur, acc =>
+      if st = 2 then (if c = '\n' then go cs 0 cur acc else go cs 2 cur acc)
+      else if st = 4 then go cs 3 [] ([c] :: acc)
+      else if st = 3 then
+        (if c = '\\' then go cs 4 [] ([c] :: flush cur acc)
+         else if c = '"' then go cs 0 [] ([c] :: flush cur acc)
+         else if isW c then go cs 3 (c :: cur) acc
+         else go cs 3 [] ([c] :: flush cur acc))
+      else if st = 1 && c = '/' then go cs 2 [] acc
+      else
+        let acc := if st = 1 then ['/'] :: acc else acc
+        if c = '/' then go cs 1 [] (flush cur acc)
+        else if c = '"' then go cs 3 [] ([c] :: flush cur acc)
+        else if isW c then go cs 0 (c :: cur) acc
+        else if c = ' ' || c = '\n' || c = '\t' || c = '\r' then go cs 0 [] (flush cur acc)
+        else go cs 0 [] ([c] :: flush cur acc)
+  go s 0 [] []
+
 def runCase (id : Str) (inp : Input) : IO Unit := do
   let a1 := genAlloc Ord.id fuel inp
   let a2 := genAlloc Ord.rev fuel inp
@@ -38,7 +66,9 @@ def runCase (id : Str) (inp : Input) : IO Unit := do
       | none => kv "gf" s%"none"
       | some f =>
         let t2 := printFile f
-        if t2 = t then kv "gf" s%"eq" else do kv "gf" s%"diff"; kv "gftext" t2
+        if t2 = t then kv "gf" s%"eq"
+        else if codeTokens t2 = codeTokens t then kv "gf" s%"eq-code"
+        else do kv "gf" s%"diff"; kv "gftext" t2
     kv "imports" (Str.join s%";" (d.imports.map fun i => i.alias ++ s%" " ++ i.path))
     kv "pred.imports" (bstr (a.importsOK && sortedByPath d.imports))
     kv "pred.names" (bstr (a.namesOK inp.stub))
